@@ -21,6 +21,7 @@ import (
 	"errors"
 	"fmt"
 	"io"
+	"math"
 	"regexp"
 	"strconv"
 )
@@ -905,7 +906,7 @@ func (s *scanner) ReadStreamData(dict Dict) (stm *Stream, err error) {
 	}
 
 	lengthOK := false
-	if declared >= 0 {
+	if declared >= 0 && declared <= math.MaxInt64-start {
 		lengthOK, err = endstreamAt(origReader, start+declared)
 		if err != nil {
 			return nil, err
